@@ -42,7 +42,10 @@ type Case struct {
 
 type PathQ struct {
 	From string `json:"from"`
-	Path string `json:"path"`
+	// Start: the lookup starts at this top-level child of From's tree (written in From's own text or in the
+	// text of one of its submodules, whose prefixes the path then uses); empty = at the root
+	Start string `json:"start,omitempty"`
+	Path  string `json:"path"`
 }
 
 type childResult struct {
@@ -144,7 +147,11 @@ func answers(ms *yang.Modules, entries []*yang.Entry, paths []PathQ, qs []query,
 			out[qi] = e.Name
 		case "find":
 			p := paths[q.arg%len(paths)]
-			e := yang.ToEntry(ms.Modules[p.From]).Find(p.Path)
+			e := yang.ToEntry(ms.Modules[p.From])
+			if p.Start != "" && e != nil {
+				e = e.Dir[p.Start]
+			}
+			e = e.Find(p.Path)
 			if e == nil {
 				out[qi] = "nil"
 			} else {
@@ -447,6 +454,45 @@ func genSet(t *rapid.T) (*ymodel.Set, []PathQ) {
 	}
 	if len(paths) > 40 {
 		paths = paths[:40]
+	}
+	if len(r.Problems) == 0 {
+		// lookups that start at an inner node: a top-level node written in a module or in one of its
+		// submodules; absolute paths are spelled with the prefixes of the text that holds the start node
+		var inner []PathQ
+		for _, m := range set.Modules {
+			owner := set.Owner(m)
+			if owner == nil {
+				owner = m
+			}
+			var starts []string
+			for _, n := range m.Nodes {
+				switch n.Kind {
+				case ymodel.KContainer, ymodel.KList, ymodel.KLeaf, ymodel.KLeafList:
+					starts = append(starts, n.Name)
+				}
+			}
+			if len(starts) == 0 {
+				continue
+			}
+			k := 0
+			for _, tg := range schema.AllNodes(set, trees, m) {
+				if tg.Node.Kind == ymodel.KInput || tg.Node.Kind == ymodel.KOutput || strings.Contains(tg.Path, ":input") || strings.Contains(tg.Path, ":output") {
+					continue
+				}
+				inner = append(inner, PathQ{From: owner.Name, Start: starts[k%len(starts)], Path: tg.Path})
+				if k++; k >= 12 {
+					break
+				}
+			}
+			// relative: from one top-level node to another of the same tree
+			for i, a := range starts {
+				inner = append(inner, PathQ{From: owner.Name, Start: a, Path: "../" + starts[(i+1)%len(starts)]})
+			}
+		}
+		if len(inner) > 40 {
+			inner = inner[:40]
+		}
+		paths = append(paths, inner...)
 	}
 	return set, paths
 }
